@@ -133,6 +133,22 @@ func genWidePlan(r *rand.Rand, src *source, k int, seed int64) plan {
 	p.Store = []string{"preseed-middle", "preseed-subset", "preseed-middle", "empty"}[(n/2)%4]
 	p.Delay = []string{"none", "all-2ms", "random-0-5ms", "later-gets-slow"}[(n/5)%4]
 	force := src.idx + k
+	if k%6 == 1 || k%6 == 4 {
+		// an early object uses up its retry budget and is then listed, together with objects that still have theirs,
+		// in a batch request that fails: many objects must be waiting, in batches of 2 or 3
+		p.ExhaustFault = true
+		p.BatchSize = 2 + n%2
+		p.Store = []string{"empty", "preseed-middle"}[(n/2)%2]
+		p.Delay = "none"
+		if k%6 == 4 {
+			p.Ops = append(p.Ops, opPlan{Kind: "lfs-fetch"}, opPlan{Kind: "lfs-checkout"})
+		} else {
+			p.Ops = append(p.Ops, opPlan{Kind: "lfs-pull"})
+		}
+		e1, e2 := []pat{}, []pat{}
+		p.Ops = append(p.Ops, opPlan{Kind: "lfs-pull", Inc: &e1, Exc: &e2})
+		return p
+	}
 	switch k % 6 {
 	case 5: // fetch, then lfs checkout of everything (no download races; many files sharing objects)
 		p.Ops = append(p.Ops, opPlan{Kind: "lfs-fetch"}, opPlan{Kind: "lfs-checkout"})
